@@ -80,6 +80,11 @@ def find_framecast(fn) -> list:
             if whole_frame(v) and isinstance(e.slice, (ast.List,)):
                 return True
         return False
+    for c in ast.walk(fn):
+        # DataFrame.update copies non-missing values only: a NaN moving into a row leaves the previous occupant's value there
+        if isinstance(c, ast.Call) and isinstance(c.func, ast.Attribute) and c.func.attr == "update" and whole_frame(c.func.value) and c.args \
+                and any(isinstance(x, ast.Attribute) and x.attr in ("iloc", "loc") for x in ast.walk(c.args[0])):
+            out.append((c, "DataFrame.update (skips NaN)"))
     for st in ast.walk(fn):
         if isinstance(st, ast.Assign) and any(isinstance(t, ast.Subscript) and (whole_frame(t) or whole_frame(t.value) or (isinstance(t.value, ast.Attribute) and whole_frame(t.value.value)))
                                               for t in st.targets):
